@@ -80,7 +80,8 @@ Record cfg := mkcfg {
   c_ctxdone : bool;        (* THIS loop's context is cancelled (a loop of a stopped run that has not returned yet) *)
   c_tick_checks_ctx : bool;   (* the timer arm returns without fetching when ctx.Err() != nil *)
   c_tok_checks_ctx : bool;    (* the interrupt arm returns when ctx.Err() != nil ... *)
-  c_tok_gives_back : bool     (* ... after calling Reset(), i.e. giving the token back *)
+  c_tok_gives_back : bool;    (* ... after calling Reset(), i.e. giving the token back *)
+  c_reset_nb : bool           (* Reset() is `select { case interrupt <- struct{}{}: default: }` *)
 }.
 
 Definition code_cfg (drain : bool) (ri : Z) : cfg :=
@@ -89,7 +90,7 @@ Definition code_cfg (drain : bool) (ri : Z) : cfg :=
         (select_tick_sets_fetch_failed && exec_returns_false_on_fetch_error && fetch_pop_error_returns_error)
         select_tick_fetches
         select_interrupt_recomputes fetch_resets_after_push
-        false select_tick_checks_ctx select_interrupt_checks_ctx select_interrupt_gives_token_back.
+        false select_tick_checks_ctx select_interrupt_checks_ctx select_interrupt_gives_token_back reset_nonblocking.
 
 (* the loop of a run that has been stopped: same code, its context is cancelled *)
 Definition stale_cfg (drain : bool) (ri : Z) : cfg :=
@@ -98,7 +99,7 @@ Definition stale_cfg (drain : bool) (ri : Z) : cfg :=
         (select_tick_sets_fetch_failed && exec_returns_false_on_fetch_error && fetch_pop_error_returns_error)
         select_tick_fetches
         select_interrupt_recomputes fetch_resets_after_push
-        true select_tick_checks_ctx select_interrupt_checks_ctx select_interrupt_gives_token_back.
+        true select_tick_checks_ctx select_interrupt_checks_ctx select_interrupt_gives_token_back reset_nonblocking.
 
 Definition cmp (op : cmp_op) (a b : Z) : bool :=
   match op with OpGe => b <=? a | OpGt => b <? a | OpLe => a <=? b | OpLt => a <? b
@@ -143,7 +144,8 @@ Definition take_token (s : st) : st :=
 
 (* Reset(): non-blocking send on the interrupt channel *)
 Definition send_tok (s : st) : st :=
-  if 1 <=? c_cap c then set_tok true s
+  if negb (c_reset_nb c) then s   (* a blocking send (made under the queue locker) is not a behaviour of this model: no token *)
+  else if 1 <=? c_cap c then set_tok true s
   else match lpc s with PSelect => take_token s | _ => s end.   (* unbuffered: only a waiting receiver gets it *)
 
 Inductive label :=
@@ -260,11 +262,11 @@ Definition nofault (tr : list label) : Prop := Forall (fun l => label_faults l =
 (* the loop as it was before the fix of S12: no fetchFailed arm *)
 Definition prefix_cfg (drain : bool) (ri : Z) : cfg :=
   mkcfg [(GSizeErr, TRetryInterval); (GSizeZero, TMaxDuration); (GDefault, TNextTick)]
-        drain ri 1 TZero TRetryInterval OpGt true true true true true false false false false.
+        drain ri 1 TZero TRetryInterval OpGt true true true true true false false false false true.
 
 (* the loop as it was before the fix c87a9a8: the select arms do not look at the context *)
 Definition nocheck_cfg (ctxdone drain : bool) (ri : Z) : cfg :=
-  mkcfg loop_switch drain ri 1 TZero TRetryInterval OpGt true true true true true ctxdone false false false.
+  mkcfg loop_switch drain ri 1 TZero TRetryInterval OpGt true true true true true ctxdone false false false true.
 
 (* ---- an API method seen as the sequence of its queue calls (Gen/Params.v: api_queue_calls) ---- *)
 From Coq Require Import String.
